@@ -135,7 +135,7 @@ func structurallyImpossible(v string) bool {
 // whatever is structurally impossible afterwards must be rejected.
 func structuralStage(props []string) (fails []*Case, calls int) {
 	pool := append(append([]string{}, cssTokens...), handlerLiterals()...)
-	pool = append(pool, "translate(1px,2px)", "translate(1px)", "scale(2)", "skew(1deg)", "perspective(1px)", "rotate(45deg)", "1px 2px", "left top", "50% 50%", "1 1", "'a'", "\"a\"", "\"a\" \"b\"", "url(http://a/b.png)", "url('http://a/b.png')", "drop-shadow(1px 1px red)", "steps(1,end)", "cubic-bezier(0,0,1,1)", "rgb(1,2,3)", "hsl(0,0%,0%)", "disc url(http://a/b.png)", "1px solid red", "repeat(2, 1fr)", "minmax(1px, 2px)")
+	pool = append(pool, "translate(1px,2px)", "translate(1px)", "scale(2)", "skew(1deg)", "perspective(1px)", "rotate(45deg)", "1px 2px", "left top", "50% 50%", "1 1", "'a'", "\"a\"", "\"a\" \"b\"", "url(http://a/b.png)", "url('http://a/b.png')", "drop-shadow(1px 1px red)", "steps(1,end)", "cubic-bezier(0,0,1,1)", "rgb(1,2,3)", "hsl(0,0%,0%)", "disc url(http://a/b.png)", "1px solid red", "repeat(2, 1fr)", "minmax(1px, 2px)", "'\u00ab' '\u00bb'", "\"\u00ab\" \"\u00bb\"", "'a' 'b'", "'times'", "\"times\"", "'a b'")
 	for _, prop := range props {
 		h := css.GetDefaultHandler(prop)
 	seeds:
@@ -151,6 +151,9 @@ func structuralStage(props []string) (fails []*Case, calls int) {
 				}
 				for _, ins := range []string{"(", ")", "[", "]", "|", "'", "\""} {
 					cands = append(cands, seed[:i]+ins+seed[i:])
+					if i < len(seed) && strings.ContainsRune("()[]'\"", rune(seed[i])) {
+						cands = append(cands, seed[:i]+ins+seed[i+1:]) // one bracket or quote replaced by another
+					}
 				}
 				for _, v := range cands {
 					if !structurallyImpossible(v) {
@@ -163,6 +166,22 @@ func structuralStage(props []string) (fails []*Case, calls int) {
 						break seeds
 					}
 				}
+			}
+		}
+	}
+	return fails, calls
+}
+
+// positionStage: two keywords of the same axis are not a position.
+func positionStage() (fails []*Case, calls int) {
+	for _, prop := range []string{"background-position", "object-position", "perspective-origin", "transform-origin"} {
+		h := css.GetDefaultHandler(prop)
+		for _, v := range []string{"left right", "right left", "top bottom", "bottom top", "left left", "top top"} {
+			calls++
+			if h(v) {
+				fails = append(fails, &Case{Prop: "C18", Kind: "position", Strs: []BStr{BStr(prop), BStr(v)},
+					Clause: "C18: the default handler for " + q(prop) + " accepts " + q(v) + ": two keywords of the same axis are not a position"})
+				break
 			}
 		}
 	}
